@@ -7,6 +7,7 @@ mod pkt;
 mod talk;
 mod vote;
 mod lru;
+mod limiter;
 mod rpcc;
 mod query;
 mod service;
@@ -28,6 +29,7 @@ fn main() {
         "talk" => talk::main(&args[1..]),
         "vote" => vote::main(&args[1..]),
         "lru" => lru::main(&args[1..]),
+        "limiter" => limiter::main(&args[1..]),
         "rpcc" => rpcc::main(&args[1..]),
         "query" => query::main(&args[1..]),
         "service" => service::main(&args[1..]),
